@@ -5,6 +5,7 @@ import CssVerif.Lemmas.SelList
 import CssVerif.Lemmas.SelAcc
 import CssVerif.Lemmas.SelTok
 import CssVerif.Lemmas.SelAttachSpec
+import CssVerif.Lemmas.SelAttachRun
 /-!
 # C16 — selector specificity, structure and list semantics
 
@@ -421,12 +422,27 @@ theorem attach_to_sheet (sheet : CssVerif.Ns.Sheet) (s : Sel) (hs : s.ok (CssVer
   obtain ⟨r, h1, h2, _, h4⟩ := attach_keeps_text (CssVerif.Ns.view sheet) s hs hnd
   exact ⟨r, h1, h2, h4⟩
 
-/- Full statement (every token list, not only written selectors): for `parseSel ns toks = .ok (some r)` and a dict `ns`,
-   `r.textIn ns = r.text`. Missing: the two invariants of `serItems_filter` — a `(namespaceURI, name)` pair sits only in
-   `*-selector` / `universal` items, and its URI is `None` only without a default namespace — as invariants of
-   `run ns` over all 14 callbacks (they are proved here for the items of written selectors: `items_good`).
-   A sheet whose namespaces differ from the ones the selector was parsed with (a rule moved between sheets; two
-   prefixes for one URI, where the sheet reports the last one): `attach_text_congr` says exactly when the text stays. -/
+/-- **T16.5 `attach_keeps_text_all`** (every token list, not only written selectors): whatever `Selector` commits from
+tokens parsed with the namespaces `ns` of a sheet (a dict) is written, once attached to that sheet, exactly as before.
+(The two invariants of the item sequence — a `(namespaceURI, name)` pair sits only in `*-selector` / `universal` items,
+its URI is `None` only without a default namespace — hold along every run of the state machine: `run_good`, all 14
+callbacks.) -/
+theorem attach_keeps_text_all (ns : NsMap) (toks : List Tok) (r : SelRec) (hnd : (ns.map (·.1)).Nodup)
+    (h : parseSel ns toks = .ok (some r)) : r.textIn ns = r.text := by
+  obtain ⟨hgood, uris, hu, hused⟩ := parseSel_good ns toks r h
+  unfold SelRec.textIn SelRec.text
+  rw [hused]
+  exact (serItems_filter ns r.seq uris hu hnd (fun it hit u n hv => (hgood it hit u n hv).1)
+    (fun it hit n hv => (hgood it hit .none n hv).2 rfl)).symm
+
+/-- … for every text: tokenize, parse with the sheet's namespaces, attach -/
+theorem attach_keeps_text_of_any_text (ns : NsMap) (text : Cps) (r : SelRec) (hnd : (ns.map (·.1)).Nodup)
+    (h : parseSel ns (tokensOf text) = .ok (some r)) : r.textIn ns = r.text :=
+  attach_keeps_text_all ns (tokensOf text) r hnd h
+
+/- A sheet whose namespaces differ from the ones the selector was parsed with (a rule moved between sheets; two
+   prefixes for one URI, where the sheet reports the last one): `attach_text_congr` says exactly when the text stays;
+   the `attach` correspondence stream exercises renamed / missing / other-default / extra declarations. -/
 
 /-- non-vacuity: `demoNs` is a dict, `demo` is ok — and a TEST by evaluation: with another prefix for the same URI
 the text changes (`q|*` instead of `p|*`), the specificity cannot -/
